@@ -541,6 +541,7 @@ class Combiner(Node):
                             break
                     
                     if out_edge_index_to_put is not None:
+                         self.stats["out_edge_selection"].append(self.out_edges.index(out_edge_index_to_put))
                          blocking_start_time = self.env.now
                          self.check_thread_state_and_update_combiner_state()
                          self.env.active_process.thread_state = "BLOCKED_STATE"  # Update the thread state to PROCESSING_STATE BLOCKING
